@@ -29,7 +29,8 @@ func ActionRequest(r R) *sl.Req {
 func actTargets(r R) []sl.Sel {
 	switch r.IntN(7) {
 	case 0:
-		return []sl.Sel{{Var: "ARGS_GET", Kind: 2, Key: "^k"}}
+		// "^k" against a name sent as "K1" is read differently by the two case readings (not judged): mostly avoid it
+		return []sl.Sel{{Var: "ARGS_GET", Kind: 2, Key: Pick(r, []string{"^[kK]", "^[kK]", "^[kK]1", "^k"})}}
 	case 1:
 		return []sl.Sel{{Var: "ARGS_GET", Kind: 1, Key: Pick(r, []string{"k1", "k2", "K1"})}}
 	case 2:
